@@ -65,23 +65,28 @@ def h_roundtrip(ctx):
 
 def h_prepare(ctx):
     """prepare() under metadata with a fixed mask applies exactly that mask."""
-    shape = (2, 3)
+    dims = tuple(ctx.params.get("dims", (3, 4)))
+    shape = tuple(n - 1 for n in dims)
+    n_el = int(np.prod(shape))
     hlib.reset_finam_state()
-    grid = fm.UniformGrid((3, 4))
-    bits = [ctx.flag(f"m{q}") for q in range(6)]
+    order = ctx.params.get("order", "F")
+    grid = fm.UniformGrid(dims, order=order)
+    fixed = ctx.params.get("fixed_bits")
+    # every mask (one fork per bit) on small grids; on larger ones a few bits are symbolic, the rest a fixed pattern
+    bits = [ctx.flag(f"m{q}") if fixed is None or q < fixed else (q % 3 == 1) for q in range(n_el)]
     M = np.array(bits, dtype=bool).reshape(shape)
     info = fm.Info(time=hlib.T0, grid=grid, units="m", mask=M.copy())
-    vals = [ctx.real(f"x{q}") for q in range(6)]
+    vals = [ctx.real(f"x{q}") for q in range(n_el)]
     X = np.empty(shape, dtype=object)
     for q, idx in enumerate(np.ndindex(*shape)):
         X[idx] = vals[q]
     form = ctx.choice("form", 5)
-    data = [X, fm.UNITS.Quantity(X, "m"), X.reshape(-1, order="F"), fm.UNITS.Quantity(X.reshape(-1, order="F"), "m"),
-            X[np.newaxis, ...]][form]
+    data = [X, fm.UNITS.Quantity(X, "m"), X.reshape(-1, order=order),
+            fm.UNITS.Quantity(X.reshape(-1, order=order), "m"), X[np.newaxis, ...]][form]
     out = dtools.prepare(data, info)
     m = out.magnitude
     ctx.check(np.ma.isMaskedArray(m), "prepare-not-masked")
-    ctx.check(out.shape == (1, 2, 3), "prepare-shape")
+    ctx.check(out.shape == (1,) + shape, "prepare-shape")
     ctx.check(bool(np.array_equal(np.ma.getmaskarray(m)[0], M)), "prepare-mask-differs-from-info-mask",
               {"sig": str(form)})
     d = np.ma.getdata(m)[0]
@@ -210,6 +215,13 @@ def families(tier):
     fams.append(dict(name="prepare:2x3", ref="vf.props.c18:h_prepare", params={},
                      bounds="2x3 grid, all 64 masks, payload as array / quantity / flat F-ordered array / flat quantity / with time axis",
                      must_cover=["done"]))
+    fams.append(dict(name="prepare:2x3:C", ref="vf.props.c18:h_prepare", params={"order": "C"},
+                     bounds="as prepare:2x3 on a C-ordered grid", must_cover=["done"]))
+    for order in ("F", "C"):
+        fams.append(dict(name=f"prepare:2x2x3:{order}", ref="vf.props.c18:h_prepare",
+                         params={"dims": [3, 3, 4], "order": order, "fixed_bits": 5},
+                         bounds=f"3-D grid with 2x2x3 cells, order {order}: 5 mask bits symbolic (32 masks) on top of a fixed "
+                                f"asymmetric pattern, same five payload forms", must_cover=["done"]))
     fams.append(dict(name="accept:2x3", ref="vf.props.c18:h_accept", params={},
                      bounds="9 x 9 mask specifications, 8 layouts of the producer grid, 8 layouts of the consumer grid or "
                             "no consumer grid", must_cover=["accepted", "rejected"]))
